@@ -128,7 +128,10 @@ fn scenario(kind: usize, fillk: usize, out_fd: i32) -> i32 {
     // only the last kind hands over a non-blocking descriptor: the library must not rely on the caller
     set_nonblock(wfd, kind == 4);
     let baseline_fds = crate::sig::open_fds();
-    // ---- register
+    // ---- register; one delivery arrives on this thread the moment the action is in the registry (still inside the
+    // library's registration function): it must not block either, whatever the function still has to do to the descriptor
+    director::set_rule(site::REG_DONE, director::RuleSpec { mode: director::mode::RAISE, class_mask: class::MAIN, nth: 1, arg: sig as usize, ..Default::default() });
+    wr(out_fd, "REGISTER with a delivery at the moment of publication\n");
     let id = match kind {
         0 | 3 | 4 => signal_hook::low_level::pipe::register_raw(sig, wfd),
         1 => signal_hook::low_level::pipe::register(sig, unsafe { UnixStream::from_raw_fd(wfd) }),
@@ -141,12 +144,13 @@ fn scenario(kind: usize, fillk: usize, out_fd: i32) -> i32 {
             return 0;
         }
     };
+    director::clear_rules();
     if !crate::sig::fd_open(wfd) {
         bad("descriptor closed while the action is registered".into());
     }
     wr(out_fd, &format!("WFD {}\n", wfd));
     // ---- bursts
-    let mut since_drain = 0u64;
+    let mut since_drain = WAKES.load(Ordering::SeqCst).min(1);
     let mut unread = prefilled;
     for burst in [1u64, 7, 1, 1000, 3] {
         wr(out_fd, &format!("BURST {}\n", burst));
